@@ -65,3 +65,36 @@ MUTANTS += [
     dict(id="c13-cause-dropped", property="C13", edits=[(D, "raise TypeCheckError(msg) from e", "raise TypeCheckError(msg) from None")]),
     dict(id="c13-generic-typeerror", property="C13", edits=[(D, "raise TypeCheckError(msg) from e", "raise TypeError(msg) from e")]),
 ]
+
+MUTANTS += [
+    # ---- C08
+    dict(id="c08-none-fails", property="C08", edits=[(P, "        if obj is None:\n            return True\n", "        if obj is None:\n            return False\n")]),
+    dict(id="c08-flatten-without-is-leaf", property="C08", edits=[(P, "leaves, structure = jtu.tree_flatten(obj, is_leaf=is_flatten_leaftype)", "leaves, structure = jtu.tree_flatten(obj)")]),
+    dict(id="c08-leaf-loop-first-only", property="C08", edits=[(P, "                if not is_check_leaftype(leaf):\n                    return False\n", "                if not is_check_leaftype(leaf):\n                    return False\n                break\n")]),
+    dict(id="c08-flatten-mode-not-set", property="C08", edits=[(P, "        set_treeflatten_memo()\n", "        pass\n")]),
+    dict(id="c08-pep604-unchecked", property="C08", edits=[("jaxtyping/_typeguard/__init__.py", "    elif sys.version_info >= (3, 10) and isinstance(expected_type, UnionType):", "    elif False:")]),
+]
+
+MUTANTS += [
+    # ---- C16
+    dict(id="c16-label-without-leaf-index", property="C16", edits=[(S, '_treepath_storage.value = f"(Leaf {index} in structure {structure}) "', '_treepath_storage.value = f"(Leaf in structure {structure}) "')]),
+    dict(id="c16-label-not-cleared-between-leaves", property="C16", edits=[(P, """                if not is_check_leaftype(leaf):
+                    return False
+                if cls.structure is not None:
+                    clear_treepath_memo()""", """                if not is_check_leaftype(leaf):
+                    return False""")]),
+    dict(id="c16-variadic-name-not-prefixed", property="C16", edits=[(A, """                if variadic_dim.treepath:
+                    name = get_treepath_memo() + variadic_dim.name""", """                if variadic_dim.treepath and False:
+                    name = get_treepath_memo() + variadic_dim.name""")]),
+    dict(id="c16-inner-clears-label", property="C16", edits=[(P, """        finally:
+            # Only clear what we set: an unstructured `PyTree[...]` nested inside a
+            # structured one must not wipe the outer PyTree's leaf position.
+            if cls.structure is not None:
+                clear_treepath_memo()""", """        finally:
+            clear_treepath_memo()""")]),
+    dict(id="c16-label-ignores-structure-name", property="C16", edits=[(S, '_treepath_storage.value = f"(Leaf {index} in structure {structure}) "', '_treepath_storage.value = f"(Leaf {index}) "')]),
+    dict(id="c16-toplevel-question-silent", property="C16", edits=[(S, """    if not hasattr(_treepath_storage, "value") or _treepath_storage.value is None:
+        raise AnnotationError(""", """    if not hasattr(_treepath_storage, "value") or _treepath_storage.value is None:
+        return ""
+        raise AnnotationError(""")]),
+]
